@@ -72,8 +72,11 @@ def units(tier, seed):
     # deep trees at very high and very low rate: the regime where repeated check-node products underflow
     cfgs += [(512, 454), (1024, 1000)] if q else [(256, 250), (512, 454), (512, 500), (1024, 1000), (1024, 1023), (1024, 900), (1024, 1), (1024, 12)]
     cfgs = list(dict.fromkeys(cfgs))
+    # codes of one block length are built one after the other in one process, in a seeded mixed order of k
+    # (ascending and descending neighbours): state shared per block length becomes observable
+    rng.shuffle(cfgs)
     for N, k in cfgs:
-        out.append({"unit": f"polar:N={N},k={k}", "kind": "code", "N": N, "k": k, "cost": 1 + N / 32})
+        out.append({"unit": f"polar:N={N},k={k}", "kind": "code", "N": N, "k": k, "cost": 1 + N / 32, "group": f"polar:N={N}"})
     for i in range(4 if q else 16):
         out.append({"unit": f"sc-random-llr#{i}", "kind": "sc_llr", "shard": i, "cost": 6})
     out.append({"unit": "user-masks", "kind": "masks", "cost": 3})
